@@ -396,12 +396,13 @@ M("c20-unhealthy-on-normal-stop", ["C20"], [(RUN, '''        if (
 M("c20-404-for-get-only", ["C20"], [(HC, 'if method == "GET" and path == self.endpoint_name:', 'if method == "GET" or path == self.endpoint_name:')], "R-C20-TABLE")
 M("c20-status-reset-ok", ["C20"], [(RUN, "        await consumer.pause()\n        return consumer", "        if self._health_check_server is not None:\n            self._health_check_server.health_status = HealthCheckStatus.OK\n        await consumer.pause()\n        return consumer")], "R-C20-STATUS-OWN")
 M("c20-server-not-handed-to-runner", ["C20"], [(WK, "            health_check_server=self.health_check_server,\n", "")], "R-C20-STATUS-OWN")
-R("c20-r-stop-without-wait_for", ["C20"], [(WK, '''                await asyncio.wait_for(
+# (was a must-stay-silent entry until a round-4 seeded change showed that an unbounded stop() hangs run() behind a silent client: Server.wait_closed waits for open connections)
+M("c20-stop-without-wait_for", ["C20"], [(WK, '''                await asyncio.wait_for(
                     self.health_check_server.stop(),
                     timeout=self.graceful_health_check_server_finish_time,
                 )
 ''', '''                await self.health_check_server.stop()
-''')])
+''')], "R-C20-PAIR")
 
 # ----------------------------------------------------------------------------------------------- C08
 CONV = "repid/converter.py"
